@@ -54,10 +54,24 @@ RECURSIVE ParamLists(_)
 ParamLists(n) == IF n = 0 THEN {<<>>} ELSE ParamLists(n - 1) \cup {Append(a, k) : a \in {b \in ParamLists(n - 1) : Len(b) = n - 1}, k \in ParamKinds}
 \* a kind may occur once, except plain sources (two parameters cannot share a name)
 WellNamed(ps) == \A i, j \in DOMAIN ps : (i # j /\ ps[i] = ps[j]) => FALSE
-Sigs(n) == {[params |-> ps, results |-> rs, use |-> "method"] : ps \in {q \in ParamLists(n) : WellNamed(q)}, rs \in ResultLists}
+Sigs(n) == {[params |-> ps, results |-> rs, use |-> "method", layout |-> "line", place |-> "local"] : ps \in {q \in ParamLists(n) : WellNamed(q)}, rs \in ResultLists}
 \* custom (extend) functions: the converter interface as a parameter is the converter; a sibling function in the same file
 \* declares `context source` and `context other`, which must not turn this function's plain parameters into contexts
-ExtSigs == {[params |-> ps, results |-> rs, use |-> "extend"] :
+ExtSigs0 == {[params |-> ps, results |-> rs, use |-> "extend"] :
               ps \in {q \in ParamLists(3) : WellNamed(q) /\ \A i \in DOMAIN q : q[i] \in {"src", "src2", "ctxdecl", "conv"}},
               rs \in {<<>>, <<"T">>, <<"T", "error">>, <<"T", "int">>, <<"T", "localerror">>}}
+(* C19 on custom functions: the `goverter:context ctx` line of the function's doc comment in several layouts -- as a line comment,
+   directive style (no blank), a block comment, after a tab with trailing blanks; and where the text is NOT a setting: inside prose,
+   in a comment detached by a blank line, in a trailing comment.  place: the function lives next to the converter, or in one of two
+   different packages x1/ext, x2/ext that share the package name `ext` (doc comments are looked up per package).              *)
+DocLayouts == {"line", "directive", "block", "tab", "prose", "detached", "trailing"}
+NotSetting == {"prose", "detached", "trailing"}
+HasCtxDecl(s) == \E i \in DOMAIN s.params : s.params[i] = "ctxdecl"
+ExtSigs == {[params |-> s.params, results |-> s.results, use |-> "extend", layout |-> "line", place |-> pl] : s \in ExtSigs0, pl \in {"local", "x1", "x2"}}
+           \cup {[params |-> s.params, results |-> s.results, use |-> "extend", layout |-> l, place |-> "local"] : s \in {x \in ExtSigs0 : HasCtxDecl(x)}, l \in DocLayouts}
+\* what the parameter list means once the doc comment has been read: without the setting line the parameter is a plain one
+AsPlain(s) == [s EXCEPT !.params = [i \in DOMAIN s.params |-> IF s.params[i] = "ctxdecl" THEN "src2" ELSE s.params[i]]]
+Eff(s) == IF s.layout \in NotSetting THEN AsPlain(s) ELSE s
+\* the reading under which the line is taken the wrong way round
+Misread(s) == IF s.layout \in NotSetting THEN s ELSE AsPlain(s)
 =============================================================================
